@@ -77,7 +77,7 @@ class FileProxy(object):
 
     def close(self):
         self.closed = True
-        self.log.emit('io.fclose')
+        self.log.emit('io.fclose', gen=self.gen)
         return self.inner.close()
 
 
@@ -110,11 +110,15 @@ class SocketProxy(object):
         return self.inner.fileno()
 
     def shutdown(self, *a, **k):
+        if self.hook:
+            self.hook('shutdown', self, b'')
         self.log.emit('io.shutdown', gen=self.gen)
         return self.inner.shutdown(*a, **k)
 
     def close(self):
         self.closed = True
+        if self.hook:
+            self.hook('close', self, b'')
         self.log.emit('io.close', gen=self.gen)
         return self.inner.close()
 
